@@ -251,12 +251,10 @@ func cmdVerify(args []string) {
 			fmt.Printf("   ERROR: %s\n", e)
 			bad++
 		}
+		bad += len(judge(fr))
 		for _, ob := range fr.Obs {
 			total++
-			ok := obOK(ob)
-			if !ok {
-				bad++
-			}
+			ok := ob.OK
 			if *verbose || !ok {
 				st := "?"
 				if ob.Result != nil {
